@@ -893,6 +893,28 @@ impl<'c> Gen<'c> {
                         let r = self.expr(&ft, d, Fix::Exact);
                         Expr::Method(Box::new(r), "is_nan".into(), vec![])
                     }
+                    8 if self.prof.lists && self.prof.aggregates => {
+                        // search in a list variable: the needle is passed by value (and dropped by the callee)
+                        let vars = self.all_vars();
+                        let ls: Vec<&VarInfo> = vars.iter().filter(|v| matches!(v.ty, Ty::List(_))).collect();
+                        if ls.is_empty() {
+                            return self.leaf(ty, fix);
+                        }
+                        let v = ls[self.c.below(ls.len())].clone();
+                        let Ty::List(et) = &v.ty else { unreachable!() };
+                        let et = (**et).clone();
+                        let recv = Expr::Var(v.name.clone());
+                        if self.c.chance(128) {
+                            let x = self.expr(&et, d.min(2), Fix::Direct);
+                            Expr::Method(Box::new(recv), "contains".into(), vec![x])
+                        } else {
+                            let x1 = self.expr(&et, d.min(2), Fix::Direct);
+                            let x2 = self.expr(&et, d.min(2), Fix::Direct);
+                            let a = Expr::Method(Box::new(recv.clone()), "index".into(), vec![x1]);
+                            let b = Expr::Method(Box::new(recv), "index".into(), vec![x2]);
+                            Expr::Bin(BinOp::Eq, Box::new(a), Box::new(b))
+                        }
+                    }
                     _ => self.leaf(ty, fix),
                 }
             }
